@@ -89,7 +89,10 @@ func (qt *quotaTopology) ValidAddQuota(quota *v1alpha1.ElasticQuota) error {
 	}
 
 	qt.quotaInfoMap[quotaInfo.Name] = quotaInfo
-	qt.quotaHierarchyInfo[quotaInfo.Name] = make(map[string]struct{})
+	// keep children that are already registered under this name (the root quota object is created after its children)
+	if qt.quotaHierarchyInfo[quotaInfo.Name] == nil {
+		qt.quotaHierarchyInfo[quotaInfo.Name] = make(map[string]struct{})
+	}
 	if qt.quotaHierarchyInfo[quotaInfo.ParentName] == nil {
 		qt.quotaHierarchyInfo[quotaInfo.ParentName] = make(map[string]struct{})
 	}
